@@ -33,6 +33,12 @@ def ops(t):
         'dyld-map-b': lambda ts: [R('DYLD_uuid_map_b', 0, (1, 0, 0, 0), t, ts)],
         'mmap': lambda ts: [R('BSC_mmap', 1, (0, 4096, 3, 2), t, ts), R('BSC_mmap', 2, (0, 0x1000, 0, 0), t, ts + 1)],
         'image': lambda ts: [R('DYLD_uuid_map_a', 0, (0x11 * t, 0x22, 0x1000 * t, 3), t, ts)],
+        'dlopen-500': lambda ts: [R('DBG_DYLD_TIMING_DLOPEN', 1, (0, 500, 1, 0), t, ts), R('DBG_DYLD_TIMING_DLOPEN', 2, (0, 0xbeef, 0, 0), t, ts + 1)],
+        'announce-500': lambda ts: [R('TRACE_STRING_GLOBAL', 3, tid=t, ts=ts, data=B.global_string_chunks(0, 500, '/usr/lib/libz')[0][0])],
+        'terminate-self': lambda ts: [R('TRACE_DATA_THREAD_TERMINATE', 0, (t, 0, 0, 0), t, ts)],
+        'name-self': lambda ts: [R('TRACE_STRING_THREADNAME', 0, tid=t, ts=ts, data=b'worker'.ljust(32, b'\0'))],
+        'newthread-pair': lambda ts: [R('TRACE_DATA_NEWTHREAD', 0, (7, 70, 0, 0), t, ts), R('TRACE_STRING_NEWTHREAD', 0, tid=t, ts=ts + 1, data=b'kid'.ljust(32, b'\0'))],
+        'getpid@7': lambda ts: [R('BSC_getpid', 1, tid=7, ts=ts), R('BSC_getpid', 2, (0, 5, 0, 0), 7, ts + 1)],
         'sample': lambda ts: [R('PERF_Event', 1, (8, 1, 0, 0), t, ts), R('PERF_STK_UHdr', 0, (1, 2, 0, 0), t, ts + 1),
                               R('PERF_STK_UData', 0, (0x1010, 0x2020, 0, 0), t, ts + 2), R('PERF_Event', 2, (8, 0, 0, 0), t, ts + 3)],
     }
@@ -135,6 +141,10 @@ HIST_STREAMS = [
     (('sample', 2), ('open+lookup', 1)),
     (('lone-lookup', 1), ('mmap', 1), ('reply_port', 2)),
     (('image', 2), ('sample', 1), ('dyld-map-b', 1)),
+    # text used before the record that announces it: a second pass on the same object must not know more than the first
+    (('dlopen-500', 1), ('announce-500', 1), ('dlopen-500', 2)),
+    (('terminate-self', 1), ('name-self', 1), ('getpid', 1)),
+    (('getpid@7', 1), ('newthread-pair', 1), ('getpid@7', 1)),
 ]
 
 
@@ -177,7 +187,7 @@ class C13(Check):
             '(all subsets of {1,3,4,7,0x1f} of size <=2) x BSD subclass list {[],[0x40c],[0x40d]} (list-typed; tuple-typed for the '
             'class/subclass dimension). Oracle: filtered traces == unfiltered traces restricted to those whose first event satisfies '
             'the filter. (B) request histories: all sequences of <=3 requests over {traces, formatted_traces, callstacks} on one '
-            'parser object x 6 streams (incl. samples before/after image announcements) x class lists x subclass lists x '
+            'parser object x 9 streams (incl. samples before/after image announcements, a string id / thread name / new thread used before the record that announces it) x class lists x subclass lists x '
             'tid/process {none, set} x {list, tuple}: each request equals the same request on a fresh parser; filter settings equal '
             'and same type afterwards. states = distinct configurations; transitions = requests; non-trivial = a non-empty filter.')
     assumptions = ('streams do not rely on table updates made by records that the filter itself removes (the statement does not say '
